@@ -11,6 +11,7 @@ repaired statement order (`Order.addThenStore`, F7); the pre-repair order is ref
 -/
 import Golib.Proof.C11Facts
 import Golib.Proof.C11Inv
+import Golib.Proof.C11Lin
 
 namespace Golib.C11
 
@@ -50,6 +51,89 @@ theorem c11_len (vals : List Int) (progs : List (List Call)) (σ : List Nat) :
   have e1 := cnt_eq_zero_of_all_idle (p := isPushStore) rfl hq
   have e2 := cnt_eq_zero_of_all_idle (p := isPopPost) rfl hq
   omega
+
+/-- `c11_linearizable`.  The run is instrumented with a ghost FIFO queue `q` that is
+updated ONLY at the linearization points — `q ++ [v]` at the publication step of `Push(v)`
+(`StorePointer(&l.tail, node)`, which is also the step at which `Push` returns) and `q.tail`
+at the successful `CAS(&l.head, …)` of a `Pop` — (clause 1: `gstep_q`), so the sequence of
+linearization points is a legal sequential FIFO history by construction and every
+linearization point is a step of the operation itself (hence inside its interval:
+real-time order).  After EVERY schedule:
+ 2. the abstract queue is exactly what the list stores: the values a sequence of `Pop`s
+    would return now (`stored`), in order — no loss, no duplication, no invention;
+ 3. a successful head-CAS always finds the abstract queue non-empty and removes the
+    value the popped node was created with;
+ 4. a `Pop` that is about to return `(v, true)` returns exactly the value it removed from
+    the abstract queue at its linearization point (`pend`), i.e. exactly-once delivery. -/
+theorem c11_linearizable (vals : List Int) (progs : List (List Call)) (σ : List Nat) :
+    let sg := lrun (init vals progs) (ginit vals progs) σ
+    let s := sg.1
+    let g := sg.2
+    (∀ i, (gstep s g i).q = g.q ∨
+      (∃ th v n, s.threads[i]? = some th ∧ th.pc = .pushStore v n ∧ (gstep s g i).q = g.q ++ [v]) ∨
+      (∃ th h n, s.threads[i]? = some th ∧ th.pc = .popCAS h (some n) ∧ s.head = h ∧
+        (gstep s g i).q = g.q.tail)) ∧
+    s = (run .addThenStore (init vals progs) σ).1 ∧ stored s = g.q ∧
+    (∀ (i : Nat) (th : Thread) (h : Nat) (n : Option Nat), s.threads[i]? = some th → th.pc = .popCAS h n → s.head = h →
+      ∃ x rest, g.q = x :: rest ∧ g.orig[h + 1]? = some x) ∧
+    (∀ (i : Nat) (th : Thread) (v : Int), s.threads[i]? = some th → th.pc = .popAdd v →
+      g.pend[i]? = some (some v)) := by
+  have hG := ginv_lrun (ginv_init vals progs) σ
+  exact ⟨fun i => gstep_q _ _ i, lrun_fst _ _ σ, stored_eq_q hG,
+    fun i th h n hth hpc hc => (lin_pop_facts hG hth).1 h n hpc hc,
+    fun i th v hth hpc => (lin_pop_facts hG hth).2 v hpc⟩
+
+/-- `c11_false_justified`: a `Pop` that is about to return false because it observed
+`head == tail` does so at an instant at which the list is empty (nothing can be popped);
+a `Pop` whose head-CAS fails has been overtaken: the head moved since this call loaded it,
+which only a successful `Pop` of another thread, overlapping this call, can do. -/
+theorem c11_false_justified (vals : List Int) (progs : List (List Call)) (σ : List Nat)
+    (i : Nat) (th : Thread) :
+    let s := (run .addThenStore (init vals progs) σ).1
+    s.threads[i]? = some th →
+      (∀ h, th.pc = .popLoadTail h → h = s.tail → stored s = []) ∧
+      (∀ h n, th.pc = .popCAS h n → s.head ≠ h → h < s.head) := by
+  intro s hth
+  have hG := ginv_lrun (ginv_init vals progs) σ
+  rw [lrun_fst] at hG
+  exact ⟨fun h hpc he => ((false_pop_facts hG hth).1 h hpc he).2, (false_pop_facts hG hth).2⟩
+
+/-- `c11_race_free`: in no reachable state are two different threads both about to make a
+plain (non-atomic) access to the `value` of the same node. -/
+theorem c11_race_free (vals : List Int) (progs : List (List Call)) (σ : List Nat)
+    (i j : Nat) (a b : Thread) (n : Nat) :
+    let s := (run .addThenStore (init vals progs) σ).1
+    i ≠ j → s.threads[i]? = some a → s.threads[j]? = some b →
+      ¬ (plainNode a.pc = some n ∧ plainNode b.pc = some n) := by
+  intro s hij hi hj ⟨ha, hb⟩
+  have hG := ginv_lrun (ginv_init vals progs) σ
+  rw [lrun_fst] at hG
+  exact no_conflict hG hij hi hj ha hb
+
+/-- `c11_push_completes_partial`: in every reachable state in which all other threads are
+idle, a `Push` at its loop head returns after exactly five of its own steps.
+Full statement (DESIGN §5): additionally, under fair scheduling of the single pusher that
+is between its link CAS and its publication (`Inv.one_publisher`: there is at most one,
+and it needs two more steps), every spinning pusher leaves its `Gosched` loop.  The
+fairness clause is not proved here; the harness exercises it (the `drain` line is a
+round-robin scheduler and never times out, key `push-stuck`). -/
+theorem c11_push_completes_partial (vals : List Int) (progs : List (List Call)) (σ : List Nat)
+    (i : Nat) (th : Thread) (v : Int) :
+    let s := (run .addThenStore (init vals progs) σ).1
+    s.threads[i]? = some th → th.pc = .pushLoadTail v →
+      (∀ j b, j ≠ i → s.threads[j]? = some b → b.pc = .idle) →
+      (run .addThenStore s [i, i, i, i, i]).2.map (·.ret) = [none, none, none, none, some .push] := by
+  intro s hth hpc hidle
+  exact push_completes_solo (inv_run (inv_init vals progs) σ) hth hpc hidle
+
+/-- Non-vacuity of the linearizability clauses: a reachable instrumented state with a
+non-empty abstract queue, a pop past its linearization point (pending value 4) and a
+push whose node is linked but not yet in the abstract queue. -/
+example :
+    let sg := lrun (init [4, 5] [[.push 7], [.pop]]) (ginit [4, 5] [[.push 7], [.pop]])
+      [1, 1, 1, 1, 0, 0, 0, 0]
+    sg.2.q = [5] ∧ sg.2.pend = [none, some 4] ∧ sg.2.orig = [0, 4, 5, 7] ∧ stored sg.1 = [5] := by
+  decide
 
 /-- Non-vacuity: a reachable state with a linked-but-unpublished node, a pending
 decrement and `len = 1 > 0 = poppable` (two threads mid-operation). -/
